@@ -39,7 +39,9 @@ LEAN = {"module": "Pygom.Props.C02", "extra_modules": ["Pygom.Lemmas.Integrate"]
         "required": ["Pygom.C02.rows_correct", "Pygom.C02.rows_aliased", "Pygom.C02.integrate_rows",
                      "Pygom.C02.integrate2_rows", "Pygom.C02.solve_determ_rows", "Pygom.C02.method_dispatch",
                      "Pygom.C02.session_is_pure", "Pygom.C02.earlier_results_kept", "Pygom.C02.solve_reads_current",
-                     "Pygom.C02.solve2_reads_current", "Pygom.C02.stale_grid_counterexample"]}
+                     "Pygom.C02.solve2_reads_current", "Pygom.C02.stale_grid_counterexample",
+                     "Pygom.C02.row_at_requested_time", "Pygom.C02.repeated_times_equal_rows", "Pygom.C02.rows_translation_invariant",
+                     "Pygom.C02.repeated_time_shortcut_counterexample"]}
 BUDGET = {"quick": {"fake": 240, "fake_sessions": 120, "models": 114, "catalogue": 20, "radau_every": 2, "cython": 1,
                     "history": 48, "siblings": 30, "forms": 24, "entries_per_session": 5},
           "thorough": {"fake": 4000, "fake_sessions": 2000, "models": 2280, "catalogue": 60, "radau_every": 4, "cython": 8,
